@@ -539,6 +539,15 @@ func (w *World) advance(d time.Duration) {
 func (w *World) sleep(d time.Duration) {
 	target := time.Now().Add(d)
 	for time.Now().Before(target) {
+		// goroutines held at sleep-type yields go first: their 1 ns timers would otherwise fire inside the sleep below, and one
+		// of them may then wait for a mutex that a parked goroutine holds - which stops the bubble's clock for good
+		for i := 0; i < 1000 && w.releaseSoftSleeper(); i++ {
+			if w.polling() {
+				w.pollQuiescent()
+			} else {
+				synctest.Wait()
+			}
+		}
 		if w.polling() {
 			w.liftCapacity()
 			w.pollQuiescent()
